@@ -7,10 +7,60 @@ import os
 import re
 
 
+def _rust_str(dbg):
+    """decode a Rust Debug-printed string literal ("a\\nb") ; None if it is not one"""
+    if len(dbg) < 2 or dbg[0] != '"' or dbg[-1] != '"':
+        return None
+    body = dbg[1:-1]
+    out = []
+    i = 0
+    while i < len(body):
+        ch = body[i]
+        if ch == "\\" and i + 1 < len(body):
+            n = body[i + 1]
+            if n == "n":
+                out.append("\n")
+            elif n == "t":
+                out.append("\t")
+            elif n == "r":
+                out.append("\r")
+            elif n == "0":
+                out.append("\0")
+            elif n == "u" and i + 2 < len(body) and body[i + 2] == "{":
+                j = body.index("}", i)
+                out.append(chr(int(body[i + 3:j], 16)))
+                i = j + 1
+                continue
+            else:
+                out.append(n)
+            i += 2
+            continue
+        out.append(ch)
+        i += 1
+    return "".join(out)
+
+
+def _normalise(node):
+    """string constants that rustc keeps as type-level constants (match patterns) arrive Debug-printed"""
+    if isinstance(node, dict):
+        if node.get("k") == "const" and "dbg" in node and "str" not in node and node.get("ty", "").endswith("str"):
+            v = _rust_str(node["dbg"])
+            if v is not None:
+                node["str"] = v
+        for v in node.values():
+            if isinstance(v, (dict, list)):
+                _normalise(v)
+    elif isinstance(node, list):
+        for v in node:
+            if isinstance(v, (dict, list)):
+                _normalise(v)
+
+
 class Crate:
     def __init__(self, path):
         with open(path) as fh:
             d = json.load(fh)
+        _normalise(d["fns"])
         self.raw = d
         self.prefix = d["prefix"]
         self.is_bin = d["is_bin"]
@@ -276,7 +326,32 @@ class Fn:
             self._pred = pm
         return self._pred
 
-    def reachable(self, start=0, avoid=(), edge_filter=None):
+    def threaded_succs(self):
+        """successor map with `matches!`-style bool temporaries threaded: a block that stores a constant into a
+        bool local and jumps straight to the switch on that local continues at the matching target only"""
+        if getattr(self, "_thr", None) is not None:
+            return self._thr
+        sm = [list(x) for x in self.succ_map()]
+        for sb in range(len(self.blocks)):
+            t = self.blocks[sb]["term"]
+            if t["k"] != "switch" or self.blocks[sb]["stmts"]:
+                continue
+            l = op_local(t["a"])
+            if l is None:
+                continue
+            ds = self.defs().get(l, [])
+            if not ds or not all(d[0] == "stmt" and d[3]["r"]["k"] == "use" and const_int(d[3]["r"]["a"]) is not None for d in ds):
+                continue
+            tg = {v: x for v, x in t["targets"]}
+            for kind, db, i, node in ds:
+                dt = self.blocks[db]["term"]
+                if dt["k"] == "goto" and dt["t"] == sb and i == len(self.blocks[db]["stmts"]) - 1 or (dt["k"] == "goto" and dt["t"] == sb):
+                    v = const_int(node["r"]["a"])
+                    sm[db] = [tg.get(v, t["otherwise"])]
+        self._thr = sm
+        return sm
+
+    def reachable(self, start=0, avoid=(), edge_filter=None, threaded=False):
         """blocks reachable from `start` (inclusive) never entering a block in `avoid`.
         edge_filter(src, dst) -> bool may prune edges."""
         avoid = set(avoid)
@@ -284,7 +359,7 @@ class Fn:
             start = [start]
         seen = set()
         work = [s for s in start if s not in avoid]
-        sm = self.succ_map()
+        sm = self.threaded_succs() if threaded else self.succ_map()
         while work:
             b = work.pop()
             if b in seen:
